@@ -44,10 +44,12 @@ MANIFEST = {
             "proved equal to row selection); transcript sequences (genes.py: exon slices joined per run of transcript ids, "
             "reverse-complemented as a whole for '-'); each entry point on ANY strand byte (strand_dna_def, "
             "extract_stranded_def; they differ on '.'); completeness (revcompRagged_isSome_iff, translate_encoding_error_iff, "
-            "translate_assertion_iff); tables of sequences (Table/runPipe: table_get_replace, applySeq_compose, table_rc_twice: "
-            "a derived table carries its own, latest sequence column) and derived interval objects (GI/windows: derived_keeps_kind, "
-            "clip_in_bounds, getitem_derived: clause 4 for any clip/selection/replace/concatenate/window derivation of a stranded "
-            "object); the spec pinned by list laws (specRevComp_append/_flatten/_getElem?, chunks3_flatten, "
+            "translate_assertion_iff); tables of sequences (Table/runPipe: table_get_replace, pipeStep_spec, runPipe_spec: every stage of "
+            "every pipeline in the domain holds the columns the property-level specStages gives; pipeStep_refuses: wrong-length "
+            "replace / row index past the end are refused exactly where the spec has no answer) and derived interval objects "
+            "(per-derivation is_stranded flags tabulated from the running code into Gen.C14.giFlags, gen_flags_keep, "
+            "derived_keeps_kind, flag_dropped_unsound, clip_in_bounds, getitem_derived: clause 4 for any "
+            "clip/selection/replace/concatenate/window derivation of a stranded object); the spec pinned by list laws (specRevComp_append/_flatten/_getElem?, chunks3_flatten, "
             "specTranslate_append, stop_codons_iff); translation of every row with "
             "3 | length = standard genetic code per codon (written by amino-acid families). The complement tables of ASCII/ACGT/"
             "ACGTN/ACTG/ACTGN and the 64-codon table are re-extracted behaviourally from /repo on every run into Gen/C14.lean and "
@@ -121,8 +123,41 @@ def tabulate():
     return tabs, codon
 
 
+def tabulate_flags():
+    """which `is_stranded` each derivation of an interval object hands on: (flag of the result for a stranded object, for an
+    unstranded one), observed on the running package; a derivation that raises is recorded as (False, False)"""
+    import bionumpy as bnp
+    from bionumpy.datatypes import Bed6
+    from bionumpy.genomic_data.genomic_intervals import GenomicLocation
+    genome = bnp.Genome.from_dict({"c0": 10, "c1": 8})
+
+    def gi(stranded):
+        return genome.get_intervals(Bed6(["c0", "c1", "c1"], [1, 2, 5], [4, 6, 12], ["x"] * 3, [0] * 3, ["+", "-", "-"]), stranded=stranded)
+
+    def loc(stranded):
+        return GenomicLocation.from_fields(genome.get_genome_context(), ["c0", "c1"], [3, 6], ["+", "-"] if stranded else None)
+    derivs = {
+        "clip": lambda st: gi(st).clip(),
+        "idx": lambda st: gi(st)[[2, 0]],
+        "replace": lambda st: bnp.replace(gi(st), start=gi(st).start),
+        "concat": lambda st: np.concatenate([gi(st)[:1], gi(st)[1:]]),
+        "windows": lambda st: loc(st).get_windows(flank=2),
+    }
+    out = {}
+    for name, f in derivs.items():
+        res = []
+        for st in (True, False):
+            try:
+                res.append(bool(f(st).is_stranded()))
+            except Exception:
+                res.append(False)
+        out[name] = tuple(res)
+    return out
+
+
 def regenerate():
     tabs, codon = tabulate()
+    flags = tabulate_flags()
     out = ["import BnpVerif.Model.C14",
            "/-! GENERATED on every run by harness/props/c14.py from the package imported from /repo: behavioural",
            "tabulation of `get_reverse_complement` on every one-symbol array of every DNA encoding (decode table and",
@@ -134,6 +169,9 @@ def regenerate():
         out.append(f"def {name} : Tab := {{\n  dec := {dec},\n  comp := [{cs}] }}\n")
     out.append("def all : List (String × Tab) := [" + ", ".join(f'("{n}", {n})' for n in tabs) + "]\n")
     out.append(f"def codon : List Nat := {codon}\n")
+    fl = ", ".join(f"{k} := ⟨{str(v[0]).lower()}, {str(v[1]).lower()}⟩" for k, v in flags.items())
+    out.append("/-- `is_stranded()` of a derived interval object for a stranded / an unstranded original, per derivation -/")
+    out.append(f"def giFlags : GFlags := {{ {fl} }}\n")
     out.append("end Gen.C14\n")
     return [("BnpVerif/Gen/C14.lean", "\n".join(out))]
 
@@ -227,6 +265,8 @@ def oracle(c):
         return {"err_any": True}      # not a DNA encoding: must be refused, never answered
     if op == "strand":
         views = [_enc_view(c["enc"], s) for s in c["seqs"]]
+        if "gi" in c and c["gi"].get("outside") and all(v is not None for v in views):
+            return {"outside": True}              # a selection of an interval that does not exist (model: IndexError)
         if any(v is None for v in views) or not c["ivs"]:
             return SKIP
         out = []
@@ -285,14 +325,20 @@ def _pipe_expect(c):
             rows = new
             protein = True
         elif k == "replace":
-            if len(st[1]) != len(rows) or any(b not in DNA10 for r in st[1] for b in r):
+            if any(b not in DNA10 for r in st[1] for b in r):
                 return SKIP
+            if len(st[1]) != len(rows):
+                # a column of another length: not a table any more. The property does not say what happens; the Lean model
+                # does (the code refuses, AssertionError) and the correspondence compares it. A bare array is just replaced.
+                return SKIP if c["carrier"] == "ragged" else {"outside": True}
             rows = [list(r) for r in st[1]]
         elif k in ("same", "concat"):
             pass
         elif k == "idx":
-            if any(not (0 <= i < len(rows)) for i in st[1]):
+            if any(i < 0 for i in st[1]):
                 return SKIP
+            if any(i >= len(rows) for i in st[1]):
+                return {"outside": True}          # a row that does not exist (model: IndexError)
             rows = [rows[i] for i in st[1]]
             names = [names[i] for i in st[1]]
         else:
@@ -332,8 +378,14 @@ def _transcripts_expect(seq, ex, per_transcript=False):
     return {"names": [f"t{g[0]}" for g in groups], "rows": [g[2] if g[1] == 43 else _revcomp(g[2]) for g in groups]}
 
 
+def agree_spec(c, s, exp):
+    if isinstance(exp, dict) and exp.get("outside"):
+        return s == {"err": "outside-domain"}     # the Lean spec has no answer there either
+    return core.canon(s) == core.canon(exp)
+
+
 def agree(c, got, exp):
-    if isinstance(exp, dict) and exp.get("any"):
+    if isinstance(exp, dict) and (exp.get("any") or exp.get("outside")):
         return True
     if c["op"] == "transcripts" and c["via"] == "duck" and core.canon(got) != core.canon(exp):
         # exon lines of one transcript that are not adjacent: one entry per run of adjacent lines (what the code does) or one
@@ -1165,6 +1217,28 @@ def _pipes(rng, n):
         yield c
 
 
+def _outside(rng, n):
+    """table operations outside their domain (a replaced column of another length, a row index past the end): judged by the
+    Lean model only (AssertionError / IndexError), so that the model's refusals are seen by the correspondence"""
+    for base in _pipes(rng, 4 * n):
+        if base["carrier"] in ("ragged", "fastq_chunks") or n <= 0:
+            continue
+        steps = list(base["steps"])
+        cut = rng.randrange(len(steps) + 1)
+        count = len(base["rows"])
+        for st in steps[:cut]:
+            if st[0] == "idx":
+                count = len(st[1])
+        if rng.random() < 0.5:
+            k = rng.choice([count + 1, count + 2, max(0, count - 1)] if count > 1 else [count + 1, 0])
+            bad = ["replace", [[rng.choice(DNA10) for _ in range(3)] for _ in range(k)]]
+        else:
+            bad = ["idx", [rng.randrange(count) for _ in range(rng.choice([0, 1, 2]))] + [count + rng.choice([0, 1, 5])]]
+        tail = [st for st in steps[cut:] if st[0] in ("rc", "same")][:1]
+        yield dict(base, steps=steps[:cut] + [bad] + tail)
+        n -= 1
+
+
 def _derived(rng, n):
     """genomic_sequence[intervals] where the interval object is DERIVED: clipped to the genome, a selection, sorted, with a
     replaced column, concatenated, windows around (stranded) locations / interval midpoints, read from a BED file.
@@ -1258,6 +1332,9 @@ def _derived(rng, n):
                 steps.append(["replace", rng.choice(["start", "stop"])])
             else:
                 steps.append(["concat", rng.randrange(cnt + 1)])
+        if rng.random() < 0.03:
+            steps.append(["idx", [len(ivs) + rng.choice([0, 1, 4])]])      # an interval that does not exist
+            g["outside"] = True
         g["steps"] = steps
         c = {"op": "strand", "enc": "ACGTN", "via": via, "seqs": ss, "ivs": ivs, "entry": "getitem", "gi": g}
         if backend == "fasta":
@@ -1286,6 +1363,7 @@ def cases(tier, rng):
     # 0a. pipelines over tables of sequences (carrier kinds x compositions), and derived interval objects as index
     yield from _pipes(rng, 3000 if big else 400)
     yield from _derived(rng, 3000 if big else 400)
+    yield from _outside(rng, 300 if big else 40)
     # 0b. fresh, not yet materialised views as inputs: ragged sequence arrays and interval tables
     for c in _small_calls(rng, 4000 if big else 600):
         if c["op"] == "rc" and c.get("shape") in ("ragged", "entry", "str"):
